@@ -342,3 +342,103 @@ theorem callbacksOf_specGo (A : Arith τ) (cfg : Cfg) (sizes : List (String × N
 
 end
 end PysphVerif.Stepper
+
+/-! ## well-staged programs -/
+namespace PysphVerif.Stepper
+
+/-- stage / post-stage statements of a program, in order -/
+def stagePosts (p : Program) : List Cmd :=
+  p.filter (fun c => match c with
+    | .stage _ => true
+    | .doPostStage _ _ => true
+    | _ => false)
+
+/-- `stage k, do_post_stage(e, k), stage k+1, do_post_stage(e', k+1), …`, the
+last `stage_dt` being the whole `dt` -/
+def wellStagedFrom : Nat → List Cmd → Bool
+  | _, [] => true
+  | k, .stage j :: .doPostStage e j' :: rest =>
+    j == k && j' == k && (if rest.isEmpty then e == Expr.dt else true) &&
+      wellStagedFrom (k + 1) rest
+  | _, _ => false
+
+def wellStaged (p : Program) : Bool := wellStagedFrom 1 (stagePosts p)
+
+theorem posts_stagePosts (p : Program) : posts (stagePosts p) = posts p := by
+  unfold posts stagePosts
+  induction p with
+  | nil => rfl
+  | cons c cs ih =>
+    rcases c with _ | k | ⟨i, upd⟩ | _ | ⟨e, k⟩ <;>
+      simp [List.filterMap_cons, Cmd.post?, ih]
+
+theorem wellStagedFrom_posts (k : Nat) (l : List Cmd) (h : wellStagedFrom k l = true) :
+    (posts l).map (·.2) = List.range' k (posts l).length ∧
+    (l ≠ [] → ((posts l).map (·.1)).getLast? = some Expr.dt) := by
+  fun_induction wellStagedFrom k l with
+  | case1 k => simp [posts]
+  | case2 k j e j' rest ih =>
+    simp only [Bool.and_eq_true, beq_iff_eq] at h
+    obtain ⟨⟨⟨hj, hj'⟩, hlast⟩, hrest⟩ := h
+    obtain ⟨ih1, ih2⟩ := ih hrest
+    have hp : posts (Cmd.stage j :: Cmd.doPostStage e j' :: rest) = (e, k) :: posts rest := by
+      simp [posts, List.filterMap_cons, Cmd.post?, hj']
+    rw [hp]
+    refine ⟨?_, ?_⟩
+    · simp [List.range'_succ, ih1]
+    · intro _
+      by_cases hr : rest = []
+      · subst hr
+        simp at hlast
+        simp [posts, hlast]
+      · have := ih2 hr
+        simp only [List.map_cons]
+        rw [List.getLast?_cons_of_ne_nil]
+        · exact this
+        · intro hnil
+          rw [hnil] at this
+          simp at this
+  | case3 k l h1 h2 => simp at h
+
+end PysphVerif.Stepper
+
+/-! ## destination order -/
+namespace PysphVerif.Stepper
+
+theorem insertByName_perm (a : ArrayCfg) (l : List ArrayCfg) :
+    (insertByName a l).Perm (a :: l) := by
+  induction l with
+  | nil => exact List.Perm.refl _
+  | cons b bs ih =>
+    unfold insertByName
+    split
+    · exact (List.Perm.cons b ih).trans (List.Perm.swap a b bs)
+    · exact List.Perm.refl _
+
+/-- `x` may come before `y` in `sorted(...)` -/
+def NameLe (x y : ArrayCfg) : Prop := x.name ≤ y.name
+
+theorem insertByName_sorted (a : ArrayCfg) (l : List ArrayCfg) (hl : l.Pairwise NameLe) :
+    (insertByName a l).Pairwise NameLe := by
+  induction l with
+  | nil => simp [insertByName]
+  | cons b bs ih =>
+    obtain ⟨hb, hbs⟩ := List.pairwise_cons.mp hl
+    unfold insertByName
+    split
+    · rename_i hlt
+      refine List.pairwise_cons.mpr ⟨?_, ih hbs⟩
+      intro y hy
+      rcases List.mem_cons.mp ((insertByName_perm a bs).mem_iff.mp hy) with h | h
+      · subst h
+        exact String.not_lt.mp (fun h' => absurd (String.lt_trans hlt h') (String.lt_irrefl _))
+      · exact hb y h
+    · rename_i hnlt
+      have hab : a.name ≤ b.name := String.not_lt.mp hnlt
+      refine List.pairwise_cons.mpr ⟨?_, hl⟩
+      intro y hy
+      rcases List.mem_cons.mp hy with h | h
+      · subst h; exact hab
+      · exact String.le_trans hab (hb y h)
+
+end PysphVerif.Stepper
